@@ -323,12 +323,20 @@ func doSurface(t *rapid.T, s *stack.Stack, surface string, small, big gen.Blob, 
 				msgs[j].Offset = hostileSize(t)
 			}
 		}
+		prefixOnly := false
+		if rapid.IntRange(0, 7).Draw(t, "sendPrefix") == 0 {
+			prefixOnly = true
+			// the client stops after a prefix of the messages (possibly none at
+			// all) and half-closes or aborts
+			msgs = msgs[:rapid.IntRange(0, len(msgs)-1).Draw(t, "prefixLen")]
+			E.Label(fmt.Sprintf("bs-write-prefix=%d", min(len(msgs), 2)))
+		}
 		what = note("ByteStream.Write name=%q zstd=%v payload=%s(%d bytes) msgs=%d finish=%s storage=%s", name, z, pkind, len(payload), len(msgs), finish, storage)
 		var r cl.BSWriteResult
 		call(t, what, func(context.Context) { r = cl.BSWrite(s, msgs, finish == "abort") })
 		what += fmt.Sprintf(" -> %v committed=%d", r.Code, r.Committed)
 		statusCls = r.Code.String()
-		if pkind != "valid" && r.Code == codes.OK && finish == "last" && name == cl.WriteName("", "u", target.Hash, target.Size, z, "") {
+		if pkind != "valid" && !prefixOnly && r.Code == codes.OK && finish == "last" && name == cl.WriteName("", "u", target.Hash, target.Size, z, "") {
 			t.Fatalf("invalid payload answered OK: %s", what)
 		}
 		deep = true
@@ -789,7 +797,7 @@ func TestC14Backend(t *testing.T) {
 			data := gen.Expand(uint64(i)+5000, 30, "rand")
 			d := &pb.Digest{Hash: gen.SHA(data), SizeBytes: 30}
 			ds = append(ds, d)
-			have := inBackend == "all" || (inBackend == "some" && i%3 != 0) || (inBackend == "all-but-one" && i != n/2)
+			have := inBackend == "all" || (inBackend == "some" && i%3 != 0) || (inBackend == "all-but-one" && i != min(n, 200)/2)
 			if have {
 				px.Set(cache.CAS, d.Hash, fproxy.Obj{Stored: data, Logical: 30})
 			}
